@@ -17,11 +17,25 @@ E_Method == 10     \* InvalidInterfaceMethod
 SelSchema(I) == [k |-> "int", w |-> I.width, s |-> FALSE]
 SelOfName(I, m) == IF "sel" \in DOMAIN m THEN m.sel ELSE Selector(m.name, InterfaceHash(I.name), I.width)
 \* A *prepared* interface carries its hash and the selector of every method (computed once: SipHash is costly)
-Prepare(I) == [name |-> I.name, width |-> I.width, methods |-> I.methods, hash |-> InterfaceHash(I.name),
+Prepare(I) == [name |-> I.name, namestr |-> (IF "namestr" \in DOMAIN I THEN I.namestr ELSE ""), width |-> I.width,
+               methods |-> I.methods, hash |-> InterfaceHash(I.name),
                sels |-> [i \in 1..Len(I.methods) |-> SelOfName(I, I.methods[i])]]
 MethodIndex(I, m) == CHOOSE i \in 1..Len(I.methods) : I.methods[i] = m
 SelOf(I, m) == I.sels[MethodIndex(I, m)]
 Request(I, m, args) == Enc(SelSchema(I), SelOf(I, m)) \o Enc(m.args, args)
+
+\* Invoke accepts arguments of conforming types: an integral argument of another width or signedness is converted
+\* to the declared parameter type (the usual C++ conversion: sign- or zero-extension of the caller's value), and it
+\* is the declared type that travels.  M.cargs[name], when present, is the tuple schema of the caller's types.
+CallerArgs(M, name) == IF "cargs" \in DOMAIN M /\ name \in DOMAIN M.cargs THEN M.cargs[name] ELSE M.args
+ConvWord(w, from, to) ==
+  IF from.k = "int" /\ to.k = "int" /\ from.w < to.w THEN (IF from.s THEN SignExt(w, to.w) ELSE ZeroExt(w, to.w)) ELSE w
+AsDeclared(M, name, args) ==
+  LET ca == CallerArgs(M, name) IN
+  IF ca = M.args THEN args
+  ELSE [m |-> [i \in 1..Len(M.args.m) |-> ConvWord(args.m[i], ca.m[i], M.args.m[i])]]
+\* a method declared to return void has no reply: Invoke succeeds as soon as the request is written
+ReturnsVoid(M) == M.ret.k = "void"
 
 \* index of the bound method with the given selector, 0 if none
 BoundIndex(I, sel) == IF \E i \in 1..Len(I.methods) : I.methods[i].bound /\ I.sels[i] = sel
@@ -58,17 +72,30 @@ FaultFails(c) ==
   \cup (IF c.fault.on = "reqr" THEN Tag(c.hlog = <<>> /\ c.rep = <<>>, "handler-or-reply-after-failed-request-read") ELSE {})
   \cup (IF c.fault.on = "repw" THEN Tag(Len(c.hlog) = 1, "handler-count") ELSE {})
 
+\* the dispatch table's own statements: the selector of every declared method (Method::Selector and the interface's
+\* lookup by index) is the specified one, and Match() is true exactly for the bound methods
+LabelIndex(I, label) == CHOOSE i \in 1..Len(I.methods) : I.methods[i].label = label
+SelsFail(I, e) ==
+  (IF Has(e, "iname") /\ Has(I, "namestr") THEN Tag(e.iname = I.namestr, "interface-name") ELSE {})
+  \cup UNION {LET r == e.sels[j]
+                 i == LabelIndex(I, r.m) IN
+             Tag(r.sel = ZeroExt(I.sels[i], 8), "method-selector:" \o r.m)
+             \cup Tag(r.isel = r.sel, "selector-by-index:" \o r.m)
+             \cup Tag(r.match = I.methods[i].bound, "bindings-match:" \o r.m) : j \in 1..Len(e.sels)}
+
 CallFails(I, c) ==
   LET raw == c.m = "Raw"
       tampered == raw \/ c.seen # c.req
       D == Dispatch(I, c.seen) IN
-  (IF raw THEN {} ELSE Tag(c.req = Request(I, MethodOf(I, c.m), c.args), "request-framing"))
+  (IF raw THEN {} ELSE Tag(c.req = Request(I, MethodOf(I, c.m), AsDeclared(MethodOf(I, c.m), c.m, c.args)), "request-framing"))
   \cup
   (IF ~D.ok
    THEN Tag(c.dstatus \in MapErr(D.errs), "dispatch-status")
         \cup Tag(c.hlog = <<>>, "handler-ran-on-error")
         \cup Tag(c.rep = <<>>, "reply-sent-on-error")
-        \cup (IF raw THEN {} ELSE Tag(c.st_invoke # 0, "invoke-succeeded-without-reply"))
+        \cup (IF raw THEN {}
+              ELSE IF ReturnsVoid(MethodOf(I, c.m)) THEN Tag(c.st_invoke = 0, "void-invoke-status")
+              ELSE Tag(c.st_invoke # 0, "invoke-succeeded-without-reply"))
    ELSE LET M == I.methods[D.h] IN
         Tag(c.dstatus = 0, "dispatch-status")
         \cup Tag(Len(c.hlog) = 1, "handler-count")
@@ -77,7 +104,7 @@ CallFails(I, c) ==
                    \cup Tag(c.hlog[1].args = D.args, "handler-arguments")
                    \cup Tag(c.rep = Enc(M.ret, c.hlog[1].ret), "reply-is-handlers-return")
                    \cup (IF tampered THEN {}
-                         ELSE Tag(c.hlog[1].args = c.args, "arguments-as-sent")
+                         ELSE Tag(c.hlog[1].args = AsDeclared(M, c.m, c.args), "arguments-as-sent")
                               \cup Tag(c.st_invoke = 0 /\ Has(c, "ret") /\ c.ret = c.hlog[1].ret, "invoke-result")
                               \cup Tag(c.rep_left = 0, "reply-consumed"))
               ELSE {})
